@@ -109,6 +109,7 @@ type c07Script struct {
 	Flush   bool        `json:"flush"`
 	Early   bool        `json:"early_hints,omitempty"` // 103 Early Hints before the final status
 	Copy    bool        `json:"io_copy,omitempty"`     // body written with io.Copy from a plain reader (no WriteTo)
+	DeclLen bool        `json:"declares_length,omitempty"` // the handler announces its entity length itself (Content-Length), as file servers do, also for HEAD and 304
 }
 
 func genC07Script(r *rand.Rand, attempt int) c07Script {
@@ -134,6 +135,7 @@ func genC07Script(r *rand.Rand, attempt int) c07Script {
 	}
 	s.Early = r.IntN(6) == 0
 	s.Copy = r.IntN(4) == 0
+	s.DeclLen = r.IntN(4) == 0
 	return s
 }
 
@@ -144,6 +146,13 @@ func (s c07Script) serve(w http.ResponseWriter, attempt int) {
 			continue
 		}
 		w.Header().Add(h[0], h[1])
+	}
+	if s.DeclLen {
+		total := 0
+		for _, n := range s.Chunks {
+			total += n
+		}
+		w.Header().Set("Content-Length", fmt.Sprint(total))
 	}
 	if s.Early && s.Status != 0 {
 		w.Header().Set("Link", "</style.css>; rel=preload")
@@ -170,6 +179,7 @@ type c07Resp struct {
 	hdr    http.Header
 	body   []byte
 	err    error
+	cl     string // the Content-Length header as received ("" = none)
 }
 
 var framingHeaders = map[string]bool{"Content-Length": true, "Transfer-Encoding": true, "Date": true, "Connection": true}
@@ -187,10 +197,11 @@ func doRaw(client *http.Client, method, url string, body []byte) c07Resp {
 	defer resp.Body.Close()
 	b, err := io.ReadAll(resp.Body)
 	h := resp.Header.Clone()
+	cl := strings.Join(h.Values("Content-Length"), ",")
 	for k := range framingHeaders {
 		h.Del(k)
 	}
-	return c07Resp{resp.StatusCode, h, b, err}
+	return c07Resp{resp.StatusCode, h, b, err, cl}
 }
 
 func c07Retry(c *Ctx) {
@@ -433,6 +444,15 @@ func c07Retry(c *Ctx) {
 			}
 			c.Violation(key, sfmt("client headers differ from the final attempt's: %s", why), desc)
 			return
+		}
+		// a length the final attempt announced itself is one of its headers (it is what a HEAD or 304 answer is for);
+		// differential against the bare server, which applies the same net/http rules to the same handler
+		if scripts[final-1].DeclLen {
+			c.Count("final_attempts_announcing_their_length", 1)
+			if got.cl != want.cl {
+				c.Violation("response/headers", sfmt("%s, final attempt (#%d) answers %d and sets Content-Length itself: the bare handler's client receives Content-Length %q, the buffer's client %q", method, final, want.status, want.cl, got.cl), desc)
+				return
+			}
 		}
 		if final >= 2 || scripts[final-1].Status == 0 || len(want.body) == 0 {
 			c.Nontrivial(sfmt("%s/%s/%d/%v", exprText, method, final, scripts[final-1]))
